@@ -275,6 +275,31 @@ func properties() map[string]*PropertyDef {
 		LevelNote:   "see assumptions; trusted: go/ssa lowering, govc encoding, solvers",
 		Technique:   "contract-based deductive verification (govc): loop invariants on real scanners, lemma calls, WP over go/ssa, z3/cvc5",
 	})
+	ps = append(ps, &PropertyDef{
+		ID:       "C08",
+		Patterns: []string{"./hostsfile"},
+		Funcs: []string{"hostsfile.Parse", "hostsfile.NewDefaultStorage", "hostsfile.(*orderedSet).add", "hostsfile.(*DefaultStorage).Add",
+			"hostsfile.(*DefaultStorage).ByAddr", "hostsfile.(*DefaultStorage).ByName"},
+		Kinds: map[string]bool{"ensures": true, "invariant": true, "requires": true, "frame": true, "nil": true, "bounds": true},
+		NeedsClauses: map[string][]string{
+			"hostsfile.Parse": {"line_counter", "hs_stride", "hs_unmarshal_each_line", "hs_source_tagged", "hs_valid_added", "hs_invalid_reported",
+				"hs_invalid_source", "hs_invalid_same_token", "hs_invalid_line_error", "hs_invalid_line_number", "plain_one_outcome_per_line", "plain_errors_typed", "plain_errors_in_range"},
+			"hostsfile.(*orderedSet).add":        {"present_noop", "appended", "marks_key", "frame/"},
+			"hostsfile.(*DefaultStorage).Add":    {"inv", "no_names_no_change", "indexes_only_grow", "addr_indexed", "last_name_indexed", "last_name_listed", "frame/"},
+			"hostsfile.(*DefaultStorage).ByAddr": {"found", "missing"},
+			"hostsfile.(*DefaultStorage).ByName": {"found", "missing"},
+		},
+		Assumptions: []string{
+			"PARTIAL CLAIM. Decided for Parse (ghost event log over the real loop): with a HandleSet destination the calls are, per scanned token and in order, Record.UnmarshalText on a record tagged with the source name, then Add of that very record when it returned nil, otherwise HandleInvalid with the source name, the same token and a *LineError whose Line is the 1-based ordinal of the token; without a HandleSet exactly one of Add / an appended *LineError per token, each numbered within the tokens read so far; the loop terminates with the scanner",
+			"Decided for DefaultStorage: a record without names changes neither index; existing index entries are never replaced or removed; after Add the address is a key of the by-address index and every name is, lower-cased, a key of the by-name index whose set marks the address and whose by-address set marks the lower-cased name; an ordered set appends a new value at the end exactly when its key is new and otherwise changes nothing; ByName looks up the lower-cased host, ByAddr the address, and both return nil for a missing key",
+			"NOT decided: that the tokens are the lines of the source and independence of reader fragmentation (bufio.Scanner, assumed), which lines are well-formed (Record.UnmarshalText, property C07), ascending line numbers of the joined error, the global representation invariant of the storage (value list == key set for every entry, no duplicates, the two indexes agreeing) - it needs ownership/separation between the per-key sets which the contracts do not carry; only the per-call effects on the touched sets are proved",
+			"assumed: interface methods (Set.Add, HandleInvalid, NamedReader.Name) and UnmarshalText modify only what their contracts say; strings.ToLower is a deterministic function of its argument; rec.Names shares no memory with the storage (precondition names_not_aliased)",
+		},
+		Explanation: "loop invariants over a ghost log of the calls made through the destination interfaces; per-call contracts on the real storage methods with frame conditions",
+		LevelText:   "proof (partial): call protocol of Parse for all inputs and all destinations; per-call effects of DefaultStorage; global index invariants not decided",
+		LevelNote:   "see assumptions; trusted: go/ssa lowering, govc encoding, solvers",
+		Technique:   "contract-based deductive verification (govc): ghost event log, loop invariants, frame conditions, WP over go/ssa, z3/cvc5",
+	})
 	out := map[string]*PropertyDef{}
 	for _, p := range ps {
 		out[p.ID] = p
